@@ -91,6 +91,16 @@ class Hom:
             return self.BOOL
         if op in ("np.where", "ite"):
             self.deg(a[0])
+            # zero-guard idiom  where(m > 0, m, c)  /  where(m == 0, c, m)  with a literal c != 0: the literal is used only where m vanishes,
+            # and m = 0 is preserved by every rescaling, so the selection has the degree of m away from that null set
+            c_, x_, y_ = a
+            if isinstance(c_, T.Term) and c_.op in ("gt", "lt", "ne", "eq", "ge", "le") and len(c_.args) == 2:
+                lhs, rhs = c_.args
+                zero_l, zero_r = (isinstance(lhs, (int, float)) and lhs == 0), (isinstance(rhs, (int, float)) and rhs == 0)
+                guarded = rhs if zero_l else (lhs if zero_r else None)
+                for val, lit in ((x_, y_), (y_, x_)):
+                    if guarded is not None and val is guarded and isinstance(lit, (int, float)) and not isinstance(lit, bool) and lit != 0:
+                        return self.deg(val)
             return self.same(t, [self.deg(a[1]), self.deg(a[2])], "selection")
         if op in ("mul", "div"):
             ds = [self.deg(x) for x in a]
